@@ -50,6 +50,10 @@ def plan(tier, seed):
                             {"mode": "lab", "costs": [core[0]]})
         for osh, ssh in spaces.shape_pairs(4, 3):
             out.append({"slice": "single-family:P4x3", "mode": "single", "osh": osh, "ssh": ssh, "costs": core[:4] + [core[7]] + cheap_hgt + uneven})
+        # two cherries on 4 species leaves: the optimum may host the root strictly below the LCA species of both children
+        for ssh in spaces.binary_shapes(4):
+            out.append({"slice": "single-family:P4balx4", "mode": "single", "osh": ((None, None), (None, None)), "ssh": ssh,
+                        "costs": [core[0], cheap_hgt[0]]})
         return out
     out += L.split_plan("labelled:O3x3x3", spaces.shape_pairs(3, 3), o3, 100, {"mode": "lab", "costs": core + cheap_hgt + uneven})
     out += L.split_plan("labelled:O5chainx1x{a,b,c,abc}", [(sh, None) for sh in spaces.chain_shapes(5)],
